@@ -279,6 +279,7 @@ class World:
         self.dirs = {SIMROOT}
         self.log = []               # (step, task, inc, op, path, result, n)
         self.step = 0
+        self.epoch = EPOCH
         self.max_steps = max_steps
         self.tasks = []
         self.current = None         # Incarnation currently holding the baton
@@ -1093,17 +1094,91 @@ def _patched_urandom(n):
     return _real["urandom"](n)
 
 
-def _patched_time():
+# the simulated wall clock starts at EPOCH (a reference run in a pristine fork moves it: whatever a task writes must
+# not depend on the date, the time of day or the time zone's idea of either)
+EPOCH = 1700000000.0
+REFERENCE_EPOCH_SHIFT = 397 * 86400 + 4033.0      # another year, month, day, weekday, hour, minute and second
+
+
+def reference_clock():
+    """called by reference computations (each in its own pristine fork): the same work, on another date"""
+    global EPOCH
+    EPOCH = 1700000000.0 + REFERENCE_EPOCH_SHIFT
+
+
+def sim_now():
+    """simulated wall-clock time, or None outside a task"""
     w = WORLD
     if w is not None and w.current is not None:
-        return 1700000000.0 + w.step * 0.001        # simulated clock: one millisecond per gate
-    return _real["time"]()
+        return w.epoch + w.step * 0.001        # simulated clock: one millisecond per gate
+    return None
+
+
+def _patched_time():
+    t = sim_now()
+    return t if t is not None else _real["time"]()
+
+
+def _no_arg_time_fn(name):
+    """time.localtime() / gmtime() / ctime() / asctime() / strftime(fmt) without a time read the C clock"""
+    real = getattr(time, name)
+
+    def f(*a):
+        t = sim_now()
+        if t is not None:
+            if name in ("localtime", "gmtime", "ctime") and (not a or a[0] is None):
+                return real(t)
+            if name == "asctime" and not a:
+                return real(_real["localtime"](t))
+            if name == "strftime" and len(a) == 1:
+                return real(a[0], _real["localtime"](t))
+        return real(*a)
+    f.__name__ = name
+    return f
+
+
+def _install_datetime_seam():
+    import datetime as _dt
+    if getattr(_dt.datetime, "_verif_sim", False):
+        return
+    real_dt, real_date = _dt.datetime, _dt.date
+
+    class datetime(real_dt):
+        _verif_sim = True
+
+        @classmethod
+        def now(cls, tz=None):
+            t = sim_now()
+            return cls.fromtimestamp(t, tz) if t is not None else super().now(tz)
+
+        @classmethod
+        def utcnow(cls):
+            t = sim_now()
+            return cls.utcfromtimestamp(t) if t is not None else super().utcnow()
+
+        @classmethod
+        def today(cls):
+            t = sim_now()
+            return cls.fromtimestamp(t) if t is not None else super().today()
+
+    class date(real_date):
+        _verif_sim = True
+
+        @classmethod
+        def today(cls):
+            t = sim_now()
+            return cls.fromtimestamp(t) if t is not None else super().today()
+
+    for c in (datetime, date):
+        c.__module__ = "datetime"
+        c.__qualname__ = c.__name__
+    _dt.datetime, _dt.date = datetime, date
 
 
 def _patched_time_ns():
     w = WORLD
     if w is not None and w.current is not None:
-        return int((1700000000.0 + w.step * 0.001) * 1e9)
+        return int((w.epoch + w.step * 0.001) * 1e9)
     return _real["time_ns"]()
 
 
@@ -1308,6 +1383,11 @@ def install_seams():
     random._urandom = _patched_urandom
     time.time = _patched_time
     time.time_ns = _patched_time_ns
+    for name in ("localtime", "gmtime", "ctime", "asctime", "strftime"):
+        _real[name] = getattr(time, name)
+    for name in ("localtime", "gmtime", "ctime", "asctime", "strftime"):
+        setattr(time, name, _no_arg_time_fn(name))
+    _install_datetime_seam()
     for name in ("monotonic", "perf_counter", "process_time"):
         for suffix, scale in (("", "s"), ("_ns", "ns")):
             _real[name + suffix] = getattr(time, name + suffix)
